@@ -64,6 +64,8 @@ class Shadow:
                     self.edges[e] = (a[1], a[0])
                 elif e is None and r is not None:
                     self.edges[r] = (a[0], a[1])
+        elif o == "orientate":
+            self.d = True      # the directions afterwards are not tracked (the shadow only biases choices)
         elif o == "makeDirected":
             if not self.d:
                 self.d = True
@@ -144,6 +146,8 @@ def random_graph_case(rng, i, maxlen=40):
             op = "makeUndirected"
         elif r < 0.78:
             op = "setRoot %d" % pick_node(rng, sh)
+        elif r < 0.795:
+            op = "orientate"
         elif r < 0.86:
             op = "qn %d" % pick_node(rng, sh)
         elif r < 0.90:
@@ -346,7 +350,7 @@ def random_observer_case(rng, i, maxlen=40, flavour=0):
                     ops.append("o.attach %d" % j); obs[j] = OShadow()
         elif r < 0.80 + 0.03 * CP:
             a = node(o)
-            ops.append("o.setRoot %d %d" % (k, a))
+            ops.append("o.setRoot %d %d" % (k, a) if rng.random() < 0.85 else "o.rereg %d" % k)
         elif r < 0.80 + 0.03 * CP + GP:
             # operations made directly on the shared graph (every mutator of GlobalGraph), aimed at the
             # nodes / edges that carry objects (and indices) in some observer
@@ -410,11 +414,13 @@ def random_observer_case(rng, i, maxlen=40, flavour=0):
                 g = "createNodeFromNode %d" % onode()
             elif rr < 0.91:
                 g = "switchNodes %d %d" % oends()
-            elif rr < 0.96:
+            elif rr < 0.955:
                 e = oedge() if rng.random() < 0.4 else sh.ne + rng.randint(0, 2)
                 g = "linkE %d %d %d" % (onode(), onode(), e)
-            else:
+            elif rr < 0.98:
                 g = "setRoot %d" % onode()
+            else:
+                g = "orientate"
             ops.append(g); sh.apply(g); forget_edges(); forget_nodes()
             if rng.random() < 0.3:
                 ops.append(rng.choice(["qg", "qn %d" % pick_node(rng, sh), "qe %d" % pick_edge(rng, sh)]))
@@ -453,7 +459,7 @@ GRAPH_OPS = (["createNode", "makeDirected", "makeUndirected"]
              + ["link %d %d" % p for p in ((2, 3), (1, 0), (3, 3), (0, 1), (0, 9))]
              + ["linkE %d %d %d" % t for t in ((2, 3, 9), (3, 1, 0), (1, 3, 4))]
              + ["switchNodes %d %d" % p for p in ((0, 1), (2, 1), (2, 2), (3, 0), (1, 3))]
-             + ["setRoot %d" % n for n in (2, 9)]
+             + ["setRoot %d" % n for n in (2, 9)] + ["orientate", "gcopy ctor orientate"]
              + ["gcopy ctor deleteNode 0", "gcopy clone createNodeOnEdge 0", "gcopy assign unlink 0 1", "gcopy ctor makeUndirected",
                 "gassign 0", "gassign 3", "notifyE 0 1", "notifyE 2 7", "notifyN 1 3", "notifyN 0 9"])
 
@@ -549,7 +555,7 @@ def exhaustive_cases(length, nn, tag, alphabet_extra=True):
     alpha += ["deleteNode %d" % a for a in ids]
     if alphabet_extra:
         alpha += ["switchNodes %d %d" % (a, b) for a in ids for b in ids if a <= b]
-        alpha += ["createNodeFromNode 0", "createNodeOnEdge 0", "createNodeFromEdge 1", "linkE 0 1 3", "linkE 1 0 0"]
+        alpha += ["createNodeFromNode 0", "createNodeOnEdge 0", "createNodeFromEdge 1", "linkE 0 1 3", "linkE 1 0 0", "orientate", "setRoot 1"]
     tail = ["qg"] + ["qn %d" % a for a in ids] + ["qp 0 1", "qe 0"]
     out = []
     k = 0
